@@ -308,6 +308,35 @@ def init_races(ctx, r, prop="C02", layouts=None):
             base.close()
 
 
+def finish_then_prune(ctx):
+    """a command that finishes a task, parked after each of its calls, while `prune --yes` runs to completion, and the same with `claim <id>` against a
+    `set` that takes the task away: exits, final state and replies must be those of the two commands run one after the other in the order of their
+    lines in the log (a reply built from a read after the unlock would speak about a store the other command has already changed)"""
+    J = lambda d: {"piped": True, "body_stdin": False, "flags": {}, "json": d}
+    for variant in ("set done ∥ prune", "claim <id> ∥ set canceled"):
+        st = cmdrun.Store(ctx.ergo_verif, ctx.go)
+        trace = []
+        def do(argv, stdin, rand):
+            env = {"VERIF_RAND": str(rand)}
+            rr = st.exec(argv, stdin, env=env)
+            trace.append({"argv": argv, "stdin": None if stdin is None else stdin.decode(), "env": env})
+            return rr
+        try:
+            x = json.loads(do(["--json", "new", "task"], b'{"title":"X"}', 301)["stdout"])["id"]
+            do(["--json", "new", "task"], b'{"title":"another"}', 302)
+            if variant == "set done ∥ prune":
+                do(["--json", "--agent", "ag-P0", "claim", x], None, 303)
+                cmds = [(dict(cmd="set", id=x, **J({"title": "P0 finished", "state": "done"})), "ag-P0", {"VERIF_RAND": "311"}),
+                        ({"cmd": "prune", "yes": True}, "ag-P1", {"VERIF_RAND": "312"})]
+            else:
+                cmds = [({"cmd": "claim", "id": x}, "ag-P0", {"VERIF_RAND": "311"}),
+                        (dict(cmd="set", id=x, **J({"title": "P1 canceled", "state": "canceled"})), "ag-P1", {"VERIF_RAND": "312"})]
+            if explore2.explore_fixed(ctx, "C02", st, cmds, trace, labels=tuple(variant.split(" ∥ ")), with_stat=False, b_modes=("complete",)) == "violation":
+                return
+        finally:
+            st.close()
+
+
 def run(ctx):
     import os
     os.environ["GOGC"] = "1"      # stress the Go runtime: collections (and finalizers) inside every lock section
@@ -364,6 +393,7 @@ def run(ctx):
     finally:
         st.close()
     init_races(ctx, gen.Rng(ctx.seed * 1000003 + 202))
+    finish_then_prune(ctx)
     r = gen.Rng(ctx.seed * 1000003 + 2)
     for i in range(7 if ctx.quick else 150):
         parked_pairs(ctx, r.fork(), big=(400 if i % 3 == 1 else 0))
